@@ -20,6 +20,7 @@ type declT struct {
 	R     string  `json:"r"`
 	Rk    string  `json:"rk"`
 	U     string  `json:"u"`
+	Su    string  `json:"su"`
 	G     bool    `json:"g"`
 	Specs []specT `json:"specs"`
 }
@@ -47,6 +48,10 @@ type recT struct {
 	M     []itemT `json:"m"`
 	Tc    bool    `json:"tc"`
 	Alone bool    `json:"alone"`
+	// Open: Overlay!SigImportsOpen, the overlay signature of an override-signature names an import
+	// the original file does not have (unspecified: the imports of the original file and the type
+	// check are not judged).
+	Open bool `json:"open"`
 }
 
 func code(side, i, j, p int) int { return side*1000 + i*100 + j*10 + p }
@@ -88,11 +93,60 @@ func recvText(d *declT) string {
 	return ""
 }
 
+// suClass mirrors Overlay!SuClass: the import class a signature use needs.
+func suClass(su string) string {
+	if su == "plr" || su == "plc" {
+		return "pl"
+	}
+	return su
+}
+
+// sigParts renders the pieces of the signature of declaration d: type
+// parameters, the extra parameter and the extra result by which the signature
+// uses import d.Su.
+func sigParts(d *declT) (tparams, param, result string) {
+	if d.G {
+		tparams = "T any"
+		if d.Su == "plc" {
+			tparams = "T p1.C"
+		}
+	}
+	switch d.Su {
+	case "pl":
+		param = "y p1.T"
+	case "plr":
+		result = "z p1.T"
+	case "nm":
+		param = "y q.T"
+	case "dot":
+		param = "y DotT"
+	case "us":
+		param = "y unsafe.Pointer"
+	case "sy":
+		param = "y *sync.Mutex"
+	case "syn":
+		param = "y *s.Mutex"
+	}
+	return
+}
+
 // sigString is the canonical text of the signature of declaration d carrying
-// marker m (the parameter name holds the marker, so that the provenance of a
-// signature is observable after the merge).
+// marker m (the first parameter's name holds the marker, so that the
+// provenance of a signature is observable after the merge): receiver, type
+// parameters, parameters, results.  extract builds the same text from the AST.
 func sigString(d *declT, m int) string {
-	return fmt.Sprintf("(%s)|%v|x%d", recvText(d), d.G, m)
+	tp, par, res := sigParts(d)
+	if d.N == "init" {
+		return fmt.Sprintf("(%s)[%s]()()#%d", recvText(d), tp, m)
+	}
+	ps, rs := "x int32", "res int32"
+	if par != "" {
+		ps += ", " + par
+	}
+	if res != "" {
+		rs += ", " + res
+	}
+	return fmt.Sprintf("(%s)[%s](%s)(%s)#%d", recvText(d), tp, ps, rs, m)
 }
 
 var directiveText = map[string]string{
@@ -110,6 +164,7 @@ func importsOf(s *sideT) []string {
 		d := &s.Decls[i]
 		if isFn(d) {
 			uses[d.U] = true
+			uses[suClass(d.Su)] = true
 			if d.K == "lnk" {
 				lnk = true
 			}
@@ -190,13 +245,23 @@ func renderFn(b *strings.Builder, d *declT, own int) {
 		head += "(" + recvText(d) + ") "
 	}
 	head += d.N
-	if d.G {
-		head += "[T any]"
+	tp, par, res := sigParts(d)
+	if tp != "" {
+		head += "[" + tp + "]"
 	}
 	if d.N == "init" {
 		head += "()"
 	} else {
-		head += fmt.Sprintf("(x%d int32) int32", own)
+		// named results: the body fits every signature of the universe (override-signature keeps it)
+		head += fmt.Sprintf("(x%d int32", own)
+		if par != "" {
+			head += ", " + par
+		}
+		head += ") (res int32"
+		if res != "" {
+			head += ", " + res
+		}
+		head += ")"
 	}
 	if d.K == "lnk" {
 		link := fmt.Sprintf("//go:linkname %s vp/p1.f\n", d.N)
@@ -236,7 +301,7 @@ func renderFn(b *strings.Builder, d *declT, own int) {
 	if d.N == "init" {
 		b.WriteString("\t_ = m\n}\n")
 	} else {
-		b.WriteString("\treturn m\n}\n")
+		b.WriteString("\tres = m\n\treturn\n}\n")
 	}
 }
 
